@@ -13,7 +13,7 @@ export GOFLAGS=-mod=mod GOPROXY=off GOSUMDB=off GOTOOLCHAIN=local
 if go build ./... 2>/dev/null && go test -vet=off -count=1 ./... >/tmp/wp_test.log 2>&1; then echo "repo tests: PASS"; else echo "repo tests: FAIL"; tail -5 /tmp/wp_test.log; fi
 cd /verif
 for id in "$@"; do
-  VERIF_HANG_S=${VERIF_HANG_S:-20} ./run.sh "$id" quick 2>&1 | grep -E "^(C[0-9]+ |VIOLATION|KNOWN|INFRA|UNSTABLE)" | head -4
+  VERIF_HANG_S=${VERIF_HANG_S:-20} ./run.sh "$id" quick 2>&1 | grep -a -E "^(C[0-9]+ |VIOLATION|KNOWN|INFRA|UNSTABLE)" | head -4
   echo "  -> $id exit=$?"
 done
 cd /repo && git revert --abort 2>/dev/null; git reset -q --hard HEAD; git status --porcelain | head -3
